@@ -46,7 +46,8 @@ RULE = (
     "{MIR_B,MIR_NOT,MIR_E,MIR_TC,MIR_PG,MIR_2,MIR_T}, mirror relations RM = 7 numeric pairs over MIR_I/MIR_NI x six relations + 9 "
     "bool/string pairs over MIR_S/MIR_* x {=,!=}; mirror family (both tiers): m, !m, all of RM, !r for 6 key mirror relations, "
     "{x op c, c op x} for x in M + key mirror relations x partners {U2,IDF_TARGET_CHIPA,!IDF_TARGET_CHIPB,SOC_UNDEF,FORCED}, ordered "
-    "pairs of 5 mirror atoms, 12 negated/mixed forms; in thorough M joins A0 and RM joins R in every construction below. relations R = "
+    "pairs of 5 mirror atoms, 12 negated/mixed forms; in thorough M joins A0 and RM joins R in every construction below (of RM only "
+    "the 6 key mirror relations take part in the depth-2 products). relations R = "
     "numeric operand pairs {(N,3),(N,1.5),(N,SOC_NUM),(SOC_NUM,3),(3,N),(N,N)[,(SOC_NUM,N),(N,0x3),(SOC_NUM,1.5),"
     "(S,\"v1\") in thorough]} x all six relations + 15 bool/string pairs x {=,!=}; depth<=1: a, !a, a&&b, a||b (all "
     "ordered pairs of distinct atoms), all of R; depth 2 quick: !r for all r, {r op c, c op r} for 14 key relations x 4 partners, "
@@ -350,7 +351,8 @@ def expressions(tier: str) -> List[tuple]:
                 continue
             out += [And(And(a, b), c), Or(And(a, b), c), And(Or(a, b), c), Or(Or(a, b), c)]
     else:
-        wide = list(atoms) + neg + R
+        rm = set(mirror_relations()) - set(MIRROR_KEY_RELS)
+        wide = list(atoms) + neg + [r for r in R if r not in rm]
         narrow = list(A0) + [Not(a) for a in A0] + KEY_RELS + [S("MIR_B"), MIRROR_KEY_RELS[0]]
         pairs = []
         seenp = set()
